@@ -51,6 +51,26 @@ Proof.
   apply lookup_remove_neq; auto.
 Qed.
 
+Lemma lookup_remove_all_some : forall ks k m t,
+  csm_lookup k (csm_remove_all ks m) = Some t -> csm_lookup k m = Some t.
+Proof.
+  induction ks as [|k0 r IH]; cbn; intros k m t H; auto.
+  apply IH in H. apply lookup_remove_some in H. tauto.
+Qed.
+
+Lemma lookup_remove_all_none : forall ks k m,
+  csm_lookup k m = None -> csm_lookup k (csm_remove_all ks m) = None.
+Proof.
+  induction ks as [|k0 r IH]; cbn; intros k m H; auto.
+  apply IH. apply lookup_remove_none. auto.
+Qed.
+
+Lemma retire_held : forall f l s c, retire_sv f l s = HeldBy c <-> f s = HeldBy c.
+Proof.
+  intros. unfold retire_sv. destruct (f s); try tauto.
+  destruct (existsb (Nat.eqb s) l); split; discriminate.
+Qed.
+
 Lemma updc_eq : forall f c x, updc f c x c = x.
 Proof. intros. unfold updc. rewrite Nat.eqb_refl. reflexivity. Qed.
 Lemma updc_neq : forall f c x c', c' <> c -> updc f c x c' = f c'.
@@ -109,6 +129,7 @@ Ltac split_step o :=
          | |- context [match cphase ?x with _ => _ end] => destruct (cphase x) eqn:?
          | |- context [match sv ?st ?s with _ => _ end] => destruct (sv st s) eqn:?
          | |- context [if cancel_drop_removes ?x then _ else _] => destruct (cancel_drop_removes x) eqn:?
+         | |- context [if reload_prunes ?x then _ else _] => destruct (reload_prunes x) eqn:?
          end; auto.
 
 Lemma own_init : Own init.
@@ -168,6 +189,10 @@ Proof.
     destruct (Nat.eq_dec s' s) as [->|Ns]; rewrite ?upds_eq, ?upds_neq by auto.
     + split; [discriminate|]. intros X. apply H in X. congruence.
     + apply H.
+  - (* Reload, pruning *)
+    split; [intros X; apply retire_held in X; apply H; auto|intros X; apply retire_held; apply H; auto].
+  - (* Reload *)
+    split; [intros X; apply retire_held in X; apply H; auto|intros X; apply retire_held; apply H; auto].
 Qed.
 
 Lemma safe_init : Safe init.
@@ -234,6 +259,15 @@ Proof.
     rewrite upds_neq; auto. intros ->. congruence.
   - (* CancelDrop *)
     apply lookup_remove_some in L. destruct L as [Nk L]. apply H; auto.
+  - (* Reload, pruning *)
+    apply lookup_remove_all_some in L.
+    destruct (H _ _ L) as (c1 & s1 & K & T & Hh & D).
+    exists c1, s1. repeat split; auto.
+    destruct D as [D|D]; [left; apply retire_held; auto|right; auto].
+  - (* Reload *)
+    destruct (H _ _ L) as (c1 & s1 & K & T & Hh & D).
+    exists c1, s1. repeat split; auto.
+    destruct D as [D|D]; [left; apply retire_held; auto|right; auto].
 Qed.
 
 Lemma strong_init : Strong init.
@@ -267,14 +301,20 @@ Proof.
   - destruct (H _ _ L) as (c1 & s1 & K & T & D).
     exists c1, s1. repeat split; auto. rewrite upds_neq; auto. intros ->. congruence.
   - apply lookup_remove_some in L. destruct L as [Nk L]. apply H; auto.
+  - apply lookup_remove_all_some in L.
+    destruct (H _ _ L) as (c1 & s1 & K & T & D).
+    exists c1, s1. repeat split; auto. apply retire_held; auto.
+  - destruct (H _ _ L) as (c1 & s1 & K & T & D).
+    exists c1, s1. repeat split; auto. apply retire_held; auto.
 Qed.
 
 Lemma compl_init : Compl init.
 Proof. intros c s; cbn; discriminate. Qed.
 
-Lemma compl_step : key_inj -> forall st o, Own st -> Compl st -> Compl (step E v st o).
+Lemma compl_step : key_inj -> reload_prunes v = false ->
+  forall st o, Own st -> Compl st -> Compl (step E v st o).
 Proof.
-  intros INJ st o HO H. split_step o; intros c' s' Hs Hg; cbn [csm cl sv gcancel] in *.
+  intros INJ RP st o HO H. split_step o; intros c' s' Hs Hg; cbn [csm cl sv gcancel] in *.
   - (* Checkout c s *)
     destruct (Nat.eq_dec s' s) as [->|Ns].
     + rewrite upds_eq in Hs. inversion Hs; subst. apply lookup_insert_eq.
@@ -323,6 +363,9 @@ Proof.
     destruct (ckey_eqb_spec (key E c') k) as [X|X].
     + rewrite X, updg_eq in Hg. discriminate.
     + rewrite updg_neq in Hg by auto. rewrite lookup_remove_neq by congruence. apply H; auto.
+  - (* Reload, pruning: excluded *) discriminate RP.
+  - (* Reload: the map is untouched, borrowed connections stay borrowed *)
+    apply retire_held in Hs. apply H; auto.
 Qed.
 
 Lemma ghost_off_step : cancel_drop_removes v = false ->
@@ -357,9 +400,10 @@ Proof.
   - split; [apply own_init|apply strong_init].
 Qed.
 
-Lemma run_own_compl : key_inj -> forall ops, Own (run E v ops) /\ Compl (run E v ops).
+Lemma run_own_compl : key_inj -> reload_prunes v = false ->
+  forall ops, Own (run E v ops) /\ Compl (run E v ops).
 Proof.
-  intros INJ ops. unfold run. apply (fold_inv (fun st => Own st /\ Compl st)).
+  intros INJ RP ops. unfold run. apply (fold_inv (fun st => Own st /\ Compl st)).
   - intros st o [A B]. split; [apply own_step|apply compl_step]; auto.
   - split; [apply own_init|apply compl_init].
 Qed.
@@ -485,6 +529,7 @@ Proof.
   - rewrite lookup_insert_neq; auto. intros X. rewrite X in N1.
     destruct (ckey_eqb_spec k k); [discriminate|congruence].
   - destruct (exit_entry_first v); auto. apply lookup_remove_none; auto.
+  - apply lookup_remove_all_none; auto.
 Qed.
 
 Lemma release_kills : forall st c clean s, held (cl st c) = Some s -> cphase (cl st c) = Running ->
@@ -517,17 +562,18 @@ Qed.
 
 (* ---- completeness *)
 
-Lemma reaches_holder_guarded : key_inj -> forall ops c s,
+Lemma reaches_holder_guarded : key_inj -> reload_prunes v = false -> forall ops c s,
   sv (run E v ops) s = HeldBy c -> known_cancel_once E v ops c = false ->
   cancel_out (run E v ops) (key E c) = Contact (tgt E s).
 Proof.
-  intros INJ ops c s H G. apply cancel_out_contact. apply (proj2 (run_own_compl INJ ops)); auto.
+  intros INJ RP ops c s H G. apply cancel_out_contact. apply (proj2 (run_own_compl INJ RP ops)); auto.
 Qed.
 
-Lemma reaches_holder : key_inj -> cancel_drop_removes v = false -> forall ops c s,
+Lemma reaches_holder : key_inj -> cancel_drop_removes v = false -> reload_prunes v = false ->
+  forall ops c s,
   sv (run E v ops) s = HeldBy c -> cancel_out (run E v ops) (key E c) = Contact (tgt E s).
 Proof.
-  intros INJ CD ops c s H. apply reaches_holder_guarded; auto.
+  intros INJ CD RP ops c s H. apply reaches_holder_guarded; auto.
   unfold known_cancel_once. apply run_ghost_off; auto.
 Qed.
 
